@@ -185,7 +185,7 @@ Proof.
       * exists q0. rewrite find_mremove_neq by exact NE. auto.
 Qed.
 
-Lemma NsOK_init : NsOK [] init_topo.
+Lemma NsOK_init g : NsOK [] (init_topo g).
 Proof. split; cbn; intros; discriminate. Qed.
 
 (* ------------------------------------------------------------------ all histories *)
@@ -197,18 +197,18 @@ Proof.
   apply NsOK_step; auto.
 Qed.
 
-Lemma ns_hist rs :
-  let '(s, st, cn) := hist_state init_topo [] true rs in cn = true -> NsOK st s.
+Lemma ns_hist g rs :
+  let '(s, st, cn) := hist_state (init_topo g) [] true rs in cn = true -> NsOK st s.
 Proof. apply NsOK_hist. intros _. apply NsOK_init. Qed.
 
 (* no namespace is declared by two admitted quotas *)
-Lemma ns_unique rs :
-  let '(s, st, cn) := hist_state init_topo [] true rs in
+Lemma ns_unique g rs :
+  let '(s, st, cn) := hist_state (init_topo g) [] true rs in
   cn = true ->
   forall a b qa qb x, find a st = Some qa -> find b st = Some qb ->
     In x (ann_ns qa) -> In x (ann_ns qb) -> a = b.
 Proof.
-  pose proof (ns_hist rs) as H. destruct (hist_state init_topo [] true rs) as [[s st] cn].
+  pose proof (ns_hist g rs) as H. destruct (hist_state (init_topo g) [] true rs) as [[s st] cn].
   intros C a b qa qb x Fa Fb Ha Hb. destruct (H C) as [N1 _].
   pose proof (N1 _ _ _ Fa Ha) as E1. pose proof (N1 _ _ _ Fb Hb) as E2. congruence.
 Qed.
